@@ -126,6 +126,10 @@ fn corruptions(h: &TInstance, rng: &mut Rng, limit: usize) -> Vec<(String, TInst
     out
 }
 
+pub fn check_instance_pub(rep: &mut Report, table: &Table, q: &[u128], rng: &mut Rng, family: &str, limit: usize) {
+    check_instance(rep, table, q, rng, family, limit)
+}
+
 fn check_instance(rep: &mut Report, table: &Table, q: &[u128], rng: &mut Rng, family: &str, limit: usize) {
     let p = table.tree.p;
     let (values, auth) = table.open(q);
